@@ -39,7 +39,7 @@ func Run(oracle string, checkOrder bool) func(e *simcore.Env, tp *simcore.Tape) 
 		synctest.Test(e.T, func(*testing.T) {
 			knobDesc, knobRestore := simknobs.Draw(tp, "sidx")
 			defer knobRestore()
-			e.Event("%s", knobDesc)
+			simknobs.Record(e, knobDesc)
 			run(e, tp, oracle, checkOrder)
 		})
 	}
